@@ -254,11 +254,13 @@ func (lh *WorkerLoop) onNewConsensusRound(prevBlock interfaces.Block, prevBlockP
 	lh.logger.ConsensusTrace("starting a new consensus round", nil)
 
 	lh.leanHelixTerm = leanhelixterm.NewLeanHelixTerm(ctx, lh.logger, lh.config, lh.state, lh.electionTrigger, lh.onCommit, prevBlock, prevBlockProofBytes, canBeFirstLeader)
+	// report the round before consuming cached messages: a cached message may complete this height's commit
+	// and start the next round from inside ConsumeCacheMessages, and rounds must be reported in order
+	if lh.onNewConsensusRoundCallback != nil {
+		lh.onNewConsensusRoundCallback(ctx, current.Height(), prevBlock, canBeFirstLeader)
+	}
 	lh.logger.Debug("onNewConsensusRound() Calling ConsumeCacheMessages for H=%d", lh.state.Height())
 	lh.filter.ConsumeCacheMessages(lh.leanHelixTerm)
-	if lh.onNewConsensusRoundCallback != nil {
-		lh.onNewConsensusRoundCallback(ctx, lh.state.Height(), prevBlock, canBeFirstLeader)
-	}
 }
 
 func (lh *WorkerLoop) cleanupCurrentTerm() {
